@@ -160,6 +160,7 @@ def bounds(tier):
         return {"k_full_alphabet": 2, "k_mid_alphabet": 3, "atoms": len(ATOMS), "conds": len(CONDS),
                 "mid_atoms": len(MID_ATOMS), "core_conds": len(CORE_CONDS), "max_nesting": 2,
                 "control_skeletons": "all bodies with 4-5 items over 3 atoms x 2 conditions",
+                "phase_names": "8 names that are not plain identifiers x all bodies <= 1 item over the mid alphabet",
                 "inputs": 2, "runs_per_description": len(RUNS), "max_steps": 5, "horizon_events": 16}
     return {"k_full_alphabet": 3, "k_core_alphabet": 4, "atoms": len(ATOMS), "conds": len(CONDS),
             "control_skeletons": "all bodies with 4-5 items over 4 atoms x 2 conditions",
@@ -203,6 +204,8 @@ def gen_nodes(size, atoms, conds, depth, max_depth):
 def expand(shape):
     body = []
     for n in shape:
+        if isinstance(n, str) and n.startswith("@phase:"):
+            continue
         if isinstance(n, str):
             body.extend(ATOMS[n])
         else:
@@ -213,7 +216,9 @@ def expand(shape):
 def shape_str(shape):
     out = []
     for n in shape:
-        if isinstance(n, str):
+        if isinstance(n, str) and n.startswith("@phase:"):
+            out.append("[phase %r]" % n[7:])
+        elif isinstance(n, str):
             out.append(n)
         else:
             s = "if(%s){%s}" % (n[1], shape_str(n[2]))
@@ -227,7 +232,8 @@ def shards(tier, seed):
     out = []
     nsh = 64 if tier == "quick" else 256
     # "ctl": control skeletons (nesting 2, if/else shapes up to 5 items) over a tiny atom set
-    plan = [("full", 2), ("mid", 3), ("ctl3", 5)] if tier == "quick" else [("full", 3), ("core", 4), ("ctl4", 5)]
+    plan = [("full", 2), ("mid", 3), ("ctl3", 5), ("names", 1)] if tier == "quick" else \
+        [("full", 3), ("core", 4), ("ctl4", 5), ("names", 2)]
     for space, k in plan:
         for r in range(nsh):
             out.append({"space": space, "k": k, "mod": nsh, "rem": r})
@@ -235,6 +241,12 @@ def shards(tier, seed):
 
 
 def space_iter(space, k):
+    if space == "names":
+        for nm in PHASE_NAMES[1:]:
+            for kk in range(0, k + 1):
+                for b in gen_bodies(kk, MID_ATOMS, CORE_CONDS):
+                    yield ["@phase:" + nm] + b
+        return
     atoms = {"full": list(ATOMS), "mid": MID_ATOMS, "core": CORE_ATOMS,
              "ctl3": ["a+=1", "b=2a", "yield a"], "ctl4": ["a+=1", "b=2a", "yield a", "fail"]}[space]
     conds = list(CONDS) if space == "full" else CORE_CONDS
@@ -251,9 +263,19 @@ def space_iter(space, k):
 _EMPTY_OBS = {}
 
 
-def describe(shape):
+PHASE_NAMES = ["main", "stage_1", "main-2", "a b", "1st", "if", "it's", "Main", "aux_0"]
+
+
+def describe(shape, main_name=None):
+    """main_name: name of the enumerated phase (the names slice checks names that are not identifiers)"""
+    if shape and isinstance(shape[0], str) and shape[0].startswith("@phase:"):
+        main_name = shape[0][7:]
+        shape = shape[1:]
     body = expand(shape)
-    return [("init", INIT, "main"), ("main", body, "aux"), ("aux", AUX, "main")]
+    m = main_name or "main"
+    if m != "main":
+        body = body + [["IF", ["s", "<p>a > 40"], [["SW", m]], None]]
+    return [("init", INIT, m), (m, body, "aux"), ("aux", AUX, m)]
 
 
 def check_description(shape, acc=None):
@@ -340,6 +362,9 @@ def shrink_shape(shape, sub):
     cur = shape
     while True:
         for c in cands(cur):
+            if shape and isinstance(shape[0], str) and shape[0].startswith("@phase:") and (
+                    not c or c[0] != shape[0]):
+                continue           # the phase name is part of the case
             if fails(c):
                 cur = c
                 break
